@@ -23,7 +23,7 @@ while read c prop pat; do
   if echo "$out" | grep "signature:" | grep -q -- "$pat"; then echo "DETECTED revert-$c $prop ($pat)"; else echo "MISSED   revert-$c $prop ($pat)"; echo "$out" | tail -3; fi
 done <<'LIST'
 7daf4f9 C09 panic
-8a6eff1 C10 C10/
+01c70e8,bb417bc,bf58d7f,8a6eff1 C10 C10/
 8fcdfa8 C10 ResetUserOutput
 3d93382 C13 double-commit
 4d2137d,902d35b,72be2e9,a02226d,658217e C19 history-dependent/property
